@@ -289,7 +289,7 @@ def _run_entry(E, body, rr, st, gs, args, contract, first):
         if ap:
             for ms in st.maps.values():
                 if ms.borrowed and not ms.phantom:
-                    ms.asked = ((0, 0),)
+                    ms.asked = ()        # tracking, nothing asked yet
         if contract in ('not-full', 'no-append'):
             for ms in st.maps.values():
                 if ms.borrowed and not ms.phantom:
